@@ -132,12 +132,12 @@ def _judge(case, files, new_ast, new_bytes=None):
     v = _check_state(res["s1"], files, new_ast, "after the faulty session:")
     if v is None and res["s2"] is not None:
         v = _check_state(res["s2"], files, new_ast, "after the following plain session:")
-    if v is None and case["target"][0] in ("format_str", "sp_run") and kind in ("raise", "nonzero") and not kind.startswith("exit"):
+    if v is None and case["target"][0] in ("format_str", "sp_run") and kind in ("raise", "nonzero", "killed"):
         # a formatter crash / non-zero exit must degrade to a reported problem, not to an aborted finish phase
         if "Problems" not in r["out"] and "INTERNALERROR" not in r["out"] and "Traceback" not in r["out"]:
             v = ("formatter-fault-not-reported", r["out"][-400:])
         elif "INTERNALERROR" in r["out"] or "Traceback (most recent call last)" in r["out"]:
-            if kind == "nonzero" or (case["target"][0] == "format_str" and kind == "raise"):
+            if kind in ("nonzero", "killed") or (case["target"][0] == "format_str" and kind == "raise"):
                 v = ("formatter-fault-aborts-session-finish", r["out"][-500:])
     if v:
         sig = None
